@@ -520,6 +520,8 @@ func DataCoq(raw json.RawMessage) string {
 	return s
 }
 
+type RespJSON = respJSON
+
 type respJSON struct {
 	Data    json.RawMessage `json:"data"`
 	Errors  []errJSON       `json:"errors"`
